@@ -522,8 +522,11 @@ class IdealPoint(Point):
         one = utils.number(1, like=like, dtype=dtype, base_ring=base_ring)
 
 
+        # integer_type=False: the coordinates are cosines and sines, so
+        # an integer angle must not produce an integer array
         result = utils.zeros(np.array(theta).shape + (dimension + 1,),
-                             like=like, dtype=dtype, base_ring=base_ring)
+                             like=like, dtype=dtype, base_ring=base_ring,
+                             integer_type=False)
 
         result[..., 0] = one
 
